@@ -6,7 +6,7 @@ the stored voltages incl. NaN, the DAC law constant, comparator refresh after
 every operation that moves one of its inputs, UIO direction gating, the
 edge-interrupt pattern of the six sources (rising/falling x old/new level x
 selected/not selected), and the range of the fan period."""
-from .. import absint, shapes, mirutil, harness
+from .. import absint, shapes, mirutil, harness, step
 from .. import domain as D
 from ..domain import Agg, En, Ref, TOP, BOT, Arr, Fl, Opaque, INF
 from ..facts import AnchorMissing
@@ -203,6 +203,40 @@ def run(ctx):
         called = {c.split("::")[-1] for (_, c) in I.call_edges if c and c.startswith(BOARD + "::set_")}
         chk.ob("f2-selector/%d%d" % (sel >> 1, sel & 1), called == ({callee} if callee else set()),
                "the top two bits of a write to 0xF2 select UOR (00), UDR (10), ICR (11)", wb.loc(), "called: %s" % sorted(called))
+
+    # ... and the selected register write is made for every byte and in every board state: the setter is replaced by a stand-in
+    # that records its argument and overwrites a marker cell; a path around the call (a write skipped because the value
+    # "has not changed", a guard on some other register) leaves the join of both markers.  ICR writes in particular are not
+    # idempotent - set_icr also clears the interrupt flip-flop - so an unchanged control byte must still reach the board.
+    for sel, callee in ((0b00, "set_uor"), (0b10, "set_udr"), (0b11, "set_icr")):
+        skipped, wrong_arg, unanalysable = [], [], []
+        for low in range(64):
+            byte = (sel << 6) | low
+            st = absint.State()
+            I2 = absint.Interp(p)
+            ba = I2.new_alloc(st, "bus", shapes.build(p, "L::machine::bus::Bus"))
+            marker = I2.new_alloc(st, "marker", Opaque("NOT-CALLED"))
+            seen_args = []
+
+            def stub(I_, st_, depth, callee_, args, body, ln, marker=marker, seen_args=seen_args):
+                seen_args.append(args[1] if len(args) > 1 else None)
+                I_.store_to(st_, marker, (), Opaque("CALLED"), False, body, ln)
+                return Agg(())
+            I2.fn_overrides[BOARD + "::" + callee] = stub
+            I2.run_body(wb, [Ref(ba, (), True), 0xF2, byte], st, 0)
+            if [e for e in I2.events if e.kind in step.BAD_EVENTS and not e.in_log]:
+                unanalysable.append(byte)
+            if I2.load(st, marker, ()) != Opaque("CALLED"):
+                skipped.append(byte)
+            if seen_args != [byte]:
+                wrong_arg.append((byte, seen_args[:2]))
+        chk.ob("f2-write-reaches-board/%s" % callee, not skipped and not wrong_arg and not unanalysable,
+               "every write to 0xF2 with selector %d%d calls Board::%s exactly once with the written byte, whatever the board's "
+               "registers hold (no write is skipped as redundant)" % (sel >> 1, sel & 1, callee), wb.loc(),
+               "skipped on some path for %s; argument differs for %s; unanalysable %s" % (
+                   ["%#04x" % x for x in skipped[:4]], wrong_arg[:2], unanalysable[:3]) if (skipped or wrong_arg or unanalysable)
+               else "64 bytes, board state unknown",
+               "A4 on Bus::write with the setter replaced by a marking stand-in (must-call by marker join)")
 
     # ---- 5. edge interrupts ----------------------------------------------------------
     FIRE = DAISR["SOURCE"] | DAISR["INTERRUPT_FF"]
